@@ -2,9 +2,9 @@
    Statements only; proofs in Ws/WsVariantFacts.v, Ws/PrettyVariant.v, Ws/WrapSerFacts.v. *)
 From Coq Require Import List NArith ZArith Bool.
 From Delb.Base Require Import PyStr PyStrFacts.
-From Delb.Gen Require Import GenWrap.
+From Delb.Gen Require Import GenNames GenWrap.
 From Delb.Tree Require Import ATree Merge.
-From Delb.Ws Require Import Reduce Pretty SimplePP WsVariant WsVariantFacts PrettyVariant Wrap WrapSerFacts WrapTextOnly.
+From Delb.Ws Require Import Reduce Pretty SimplePP WsVariant WsVariantFacts PrettyVariant Wrap WrapSerFacts WrapTextOnly WrapVariant.
 Import ListNotations.
 
 (* (A) soundness of the legality criterion, for every serializer: reducing a legal whitespace variant
@@ -50,23 +50,54 @@ Proof. vm_compute. repeat split. discriminate. Qed.
    (for every fitting oracle `req`, the real `_required_space` being the instance `real_req T sr`).  It was false of
    the code before b3af6c0 (finding C03-preserved-newline-offset, fixed); the former witnesses are the regression
    Example below.  PARTIAL - what is proved of it:
-     * C03_wrapped_text_only: the full statement for every element whose only child is a text with content (the
-       domain of C19), written over lines by w_tag (as the serialization root or as a child that does not fit the
-       line), at every depth, from every writer state, for every oracle, every width >= 1 and every indentation of
-       spaces and tabs;
+     * C03_wrapped_no_mixed: the full statement, for every oracle, every width >= 1, every indentation of spaces and
+       tabs, both align settings, serialization from the root or from any sub-tree (every path sr and every
+       following context aft - the output of a sub-tree serialization depends on what follows the sub-tree only
+       through these, and the theorem holds for all of them; the precondition is that the serialized sub-tree on
+       its own is reduced), for all trees WITHOUT MIXED CONTENT (decidable class `no_mixed`: below every element
+       that is not under xml:space="preserve" the children are either one text, or non-text nodes optionally
+       separated by single spaces - what reducing a conventionally laid out document gives; anything is allowed
+       under xml:space="preserve").  C03_wrapped_real_no_mixed is its instance for the real _required_space.
+     * C03_wrapped_text_only: the single-text case on its own (also used by C19).
      * C03_wrapped_lines_variant / C03_wrapped_text_run_partial: for any text run, the lines of the generated
-       _wrap_text written with newline-plus-indentation between them reduce to the text;
-     * part (A) admits exactly such inner variants (clause iii of ws_variant).
-   Not proved: the node-level induction `wrap_is_variant` for elements with several children (mixed content), i.e.
-   that TextWrappingSerializer.serialize_node / _serialize_appendable_node / the partial-line branch of
-   _serialize_text_over_lines write whitespace only where `w_off = 0` was reached by a legal newline.  On that
-   domain the statement is checked by the correspondence + round-trip search of ./check C03 (38 k cases per
-   thorough run, no failure since b3af6c0). *)
+       _wrap_text written with newline-plus-indentation between them reduce to the text.
+   The node-level machinery (Ws/WrapVariant.v: writer invariant `winv`, `w_node_spec` for all branches of
+   serialize_node incl. _serialize_appendable_node and the verbatim serializers, the induction `wrap_variant_mut`)
+   is general; the class restriction enters in one place only, the case "text with content that has siblings":
+   MISSING LEMMA `w_text_step` - for a text optsp lead ++ k ++ optsp trail (core k) between siblings, from a state
+   satisfying winv, TextWrappingSerializer._serialize_text (incl. the partial-line branch of
+   _serialize_text_over_lines) emits pre ++ k' ++ suf with k' an inner variant of k, pre/suf whitespace that is empty
+   unless legal and non-empty where the normal form has a space - or else leaves the line full (available = 0), in
+   which case the oracle must not let the next element fit (true of the real _required_space).  Indentation strings
+   containing a newline are not covered for width > 0 (the writer strips them at the start of a line). *)
 
 Example C03_wrapped_regression :
   reduce_model (wrap_seen [SP; SP] false 5%Z c03_witness []) = c03_witness /\
   reduce_model (wrap_seen [SP; SP] false 5%Z c03_witness_comment []) = c03_witness_comment.
 Proof. split; [exact (proj1 (proj2 (proj2 c03_witness_regression)))|exact (proj2 (proj2 (proj2 (proj2 (proj2 c03_witness_regression)))))]. Qed.
+
+(* all trees without mixed content, every oracle, root or sub-tree *)
+Theorem C03_wrapped_no_mixed : forall ind align width req, ws_indent ind = true -> no_lf ind = true -> (1 <= width)%Z ->
+  forall t sr aft, reduced t -> is_text t = false -> no_mixed t = true ->
+  reduce_model (seen (wrap_chunk ind align width req sr aft t)) = t.
+Proof. exact wrap_root_transparent_no_mixed. Qed.
+Print Assumptions C03_wrapped_no_mixed.
+
+(* the instance for the real heuristics: NodeBase.serialize(format_options=...) of the element at sr of document T *)
+Theorem C03_wrapped_real_no_mixed : forall ind align width T sr t, ws_indent ind = true -> no_lf ind = true -> (1 <= width)%Z ->
+  get T sr = Some t -> reduced t -> is_text t = false -> no_mixed t = true ->
+  reduce_model (wrap_seen ind align width T sr) = t.
+Proof.
+  intros ind align width T sr t Hi Hn Hw Hg Hr Ht Hm. unfold wrap_seen, wrap_real. rewrite Hg.
+  apply wrap_root_transparent_no_mixed; assumption.
+Qed.
+Print Assumptions C03_wrapped_real_no_mixed.
+
+Example C03_no_mixed_example :
+  let t := Tag [] [114%N] [] [Tag [] [97%N] [] [Text [120; 120; 32; 121; 121; 32; 122; 122]%N]; Text [SP]; Comment [99%N];
+                              Text [SP]; Tag [] [98%N] [(xml_ns, s_space, s_preserve)] [Text [32; 113; 10]%N; Tag [] [105%N] [] []]] in
+  reduce_model t = t /\ no_mixed t = true /\ wrap_str [SP; SP] false 6%Z t [] <> render (plain t).
+Proof. vm_compute. repeat split. discriminate. Qed.
 
 (* elements that contain only text: re-reading and reducing the wrapped output gives the element back *)
 Theorem C03_wrapped_text_only : forall ind align width req, ws_indent ind = true -> no_lf ind = true -> (1 <= width)%Z ->
